@@ -392,9 +392,4 @@ def Session.remove (x : Session) : Bool × Session :=
 
 def Session.tick (x : Session) (secs : Nat) : Session := { x with now := x.now + secs }
 
-/-- `add_object` (`FileDesc::new`): `transfer_length > oti.max_transfer_length()` is refused -/
-def maxTransferLength (cap maxSbn e b : Nat) : Nat :=
-  let size := e * b * maxSbn
-  if size > cap then cap else size
-
 end Flute.BlockEnc
